@@ -192,6 +192,19 @@ CHECKS["C16"] = dict(
     note=COMMON_NOTE + " Exactness of Gauss-Lobatto quadrature and of barycentric differentiation are theorems about the nodes, not decided here.",
 )
 
+CHECKS["C15"] = dict(
+    level="other",
+    technique="static analysis: sibling comparison at term level (ast -> sympy, CAS identities) between Hydrodynamics and HydrodynamicsTemplateModel "
+              "and between the template's own closed forms",
+    text="Decides only that the two implementations encode the same equations, not that their numbers agree: boundary constants, fluid "
+         "ODE, front condition, efficiency-factor integrand, classification threshold and v- rule agree term-wise; the template's alpha_n, "
+         "Psi_n and exponents are the Thermodynamics definitions at Tn; its closed forms are mutually consistent (getVp solves the "
+         "alpha(v+, v-) relation coded at three other places, _findTm is energy-flux conservation for w ~ T^mu / T^nu, the closed-form vJ "
+         "is the Chapman-Jouguet point); the manager uses the template only to size the tracing range.",
+    note=COMMON_NOTE + " Numerical agreement of the two solvers over the parameter domain -- the body of the property -- is not decided; "
+                       "this is the thinnest kind of claim: necessary structural conditions shared with C02, C03, C06.",
+)
+
 NOT_APPLICABLE = {}
 
 ENGINES = [
